@@ -211,7 +211,16 @@ class Summariser:
             return [(conds, "raise", unparse(s.exc.func) if isinstance(s.exc, ast.Call) else "raise")]
         if isinstance(s, ast.Assign) and len(s.targets) == 1 and isinstance(s.targets[0], ast.Name):
             e2 = dict(env)
-            e2[s.targets[0].id] = self._expr(s.value, env)
+            if isinstance(s.value, (ast.Compare, ast.BoolOp)) or (isinstance(s.value, ast.UnaryOp) and isinstance(s.value.op, ast.Not)):
+                # a test kept in a temporary: substituted where it is tested
+                e2[s.targets[0].id] = Val("test", node=s.value)
+            else:
+                e2[s.targets[0].id] = self._expr(s.value, env)
+            # a plain alias of an attribute of an operand (`others = other.common_terms`): conditions are matched on the source
+            if isinstance(s.value, ast.Attribute):
+                e2["__alias__" + s.targets[0].id] = Val("aliasnode", node=s.value)
+            else:
+                e2.pop("__alias__" + s.targets[0].id, None)
             return [(conds, "next", e2)]
         if isinstance(s, ast.If):
             out = []
@@ -285,6 +294,27 @@ class Summariser:
 
     # ---- conditions -----------------------------------------------------------------------
     def _cond(self, t, env):
+        tests = {k: v.node for k, v in env.items() if isinstance(v, Val) and v.kind == "test"}
+        tests.update({k[len("__alias__"):]: v.node for k, v in env.items() if k.startswith("__alias__") and isinstance(v, Val)})
+        if tests and any(isinstance(n, ast.Name) and n.id in tests for n in ast.walk(t)):
+            # first as written; if that spelling is not known, with temporaries / aliases replaced by what they stand for
+            try:
+                return self._cond0(t, env)
+            except AnalysisError:
+                pass
+            import copy as _copy
+
+            class Sub(ast.NodeTransformer):
+                def visit_Name(self, n):
+                    return _copy.deepcopy(tests[n.id]) if isinstance(n.ctx, ast.Load) and n.id in tests else n
+
+            for _ in range(4):
+                if not any(isinstance(n, ast.Name) and n.id in tests for n in ast.walk(t)):
+                    break
+                t = ast.fix_missing_locations(Sub().visit(_copy.deepcopy(t)))
+        return self._cond0(t, env)
+
+    def _cond0(self, t, env):
         s = unparse(t)
         sn, on = self.self_name, self.other_name
         if isinstance(t, ast.Call) and dotted(t.func) == "isinstance" and isinstance(t.args[0], ast.Name) and t.args[0].id in env:
